@@ -48,7 +48,14 @@ def step (st : St) (line : String) : IO St := do
       if !(strict ∧ ends ∧ mids ∧ uni ∧ coarsenable) then
         IO.println s!"ORACLE C18 generated grid is not valid (strict={strict} endpoints={ends} midpoints={mids} uniform_angles={uni} coarsenable={coarsenable}): {st.curLine}"
         st := { st with oracleFails := st.oracleFails + 1 }
-      let stats ← match m with
+      -- `center = floor(nr * percentage)` is discontinuous: when the exact product is (nearly) an integer the double evaluation of the
+      -- implementation and the exact evaluation of the model may legitimately land on different sides; such tuples are not compared
+      let nEqui : Int := (2 : Int) ^ g.nrExp.toNat - (2 : Int) ^ g.aniso.toNat + (if g.aniso % 2 == 1 then 1 else 0)
+      let tprod : Rat := ((nEqui + 1 : Int) : Rat) * ((g.refr - g.R0) / (g.Rmax - g.R0))
+      let onTie : Bool := g.aniso > 0 ∧ g.Rmax != g.R0 ∧ Hex.rabs (tprod - (tprod.floor : Rat)) < Hex.twoPowNeg 30 ∨
+                          g.aniso > 0 ∧ g.Rmax != g.R0 ∧ Hex.rabs (tprod - ((tprod.floor + 1 : Int) : Rat)) < Hex.twoPowNeg 30
+      let stats ← match (if onTie then Out.throw "tie" else m) with
+        | .throw "tie" => pure st.stats
         | .ok (mr, mnt) =>
           let close := mr.length == radii.size ∧ (List.range mr.length).all fun i => Hex.rabs (mr.getD i 0 - radii[i]!) ≤ Hex.twoPowNeg 40 * g.Rmax
           check st.stats (mr.length == nr ∧ mnt == nt ∧ close) fun _ => s!"gridgen: sizes/radii differ: impl nr={nr} nt={nt}, model nr={mr.length} nt={mnt}: {st.curLine}"
